@@ -2188,6 +2188,79 @@ fn exec_sysids(threads: usize, rounds: usize) -> Result<String, String> {
     }
 }
 
+/// `sysarbgone aligned|plain early|alive`: a System with one worker arbiter — `aligned`: the process-wide
+/// counters are shifted first so that the worker's number equals the System's id (the registry keys of the
+/// two are different things all the same) — is driven by `block_on` only.  `early`: the worker is stopped and
+/// joined, its `Deregister` handled; then `System::stop()`; the runner goes on being driven by `block_on`:
+/// the System's own arbiter has been stopped with everything else — it refuses commands, and what is sent to
+/// `System::arbiter()` after the stop never starts.  (`run()` would drop the runtime at once and hide it.)
+fn exec_sysarbgone(aligned: bool, early: bool) -> Result<String, String> {
+    let (tx, rx) = mpsc::channel::<Result<bool, String>>();
+    thread::spawn(move || {
+        let excl = if aligned { Some(ID_LOCK.write().unwrap_or_else(|e| e.into_inner())) } else { None };
+        let shared = if excl.is_none() { Some(ID_LOCK.read().unwrap_or_else(|e| e.into_inner())) } else { None };
+        if aligned {
+            align_counters(0);
+        }
+        let runner = System::new();
+        let sys = System::current();
+        let worker = Arbiter::new();
+        drop((excl, shared));
+        let tick = |ms: u64| runner.block_on(async move { actix_rt::time::sleep(Duration::from_millis(ms)).await });
+        tick(2);
+        let mut worker = Some(worker);
+        if early {
+            let w = worker.take().unwrap();
+            w.stop();
+            if join_watchdog(w, WATCHDOG) != "ok" {
+                let _ = tx.send(Err("join of the worker arbiter after stop(): hang".into()));
+                return;
+            }
+            // its Deregister is handled
+            tick(3);
+        }
+        sys.stop();
+        // the controller handles the Exit; the system arbiter's loop ends
+        let t0 = Instant::now();
+        let started = Arc::new(AtomicUsize::new(0));
+        let mut accepted = 0;
+        loop {
+            tick(2);
+            let st = started.clone();
+            if !sys.arbiter().spawn_fn(move || {
+                st.fetch_add(1, Ordering::SeqCst);
+            }) {
+                break;
+            }
+            accepted += 1;
+            if t0.elapsed() > Duration::from_secs(2) {
+                break;
+            }
+        }
+        tick(5);
+        let n = started.load(Ordering::SeqCst);
+        let worker_ok = match worker {
+            Some(w) => join_watchdog(w, WATCHDOG) == "ok",
+            None => true,
+        };
+        let r = if t0.elapsed() > Duration::from_secs(2) || n > 0 {
+            Err(format!(
+                "System::arbiter() accepted {accepted} commands in the 2 s after System::stop() had been handled (the runner driven by block_on) and {n} of them started: the System's own arbiter was not stopped"
+            ))
+        } else if !worker_ok {
+            Err("the worker arbiter was not stopped by System::stop() (join: hang)".into())
+        } else {
+            Ok(true)
+        };
+        let _ = tx.send(r);
+    });
+    match rx.recv_timeout(Duration::from_secs(30)) {
+        Ok(Ok(_)) => Ok("sysarbgone=1 worker=joined".into()),
+        Ok(Err(e)) => Err(e),
+        Err(_) => Err("hang".into()),
+    }
+}
+
 /// `syslive <rounds>`: per round, System A is created, System B is created on another thread (it gets an
 /// arbiter and stays alive), A is stopped and its `run()` returns, and then System C is created on a third
 /// thread.  B and C are alive at the same time: their ids differ, and a task on an arbiter of each sees its
@@ -2312,6 +2385,7 @@ enum LineRes {
     BlockOn(String, usize, i32),
     SysIds(usize, usize),
     SysLive(usize),
+    SysArbGone(bool, bool),
 }
 
 fn feed(sc: &mut Scenario, ws: &[&str]) -> LineRes {
@@ -2661,6 +2735,19 @@ fn feed(sc: &mut Scenario, ws: &[&str]) -> LineRes {
             sc.done = true;
             LineRes::Ident
         }
+        (10, ["sysarbgone", a, v]) => {
+            let aligned = match *a {
+                "aligned" => true,
+                "plain" => false,
+                _ => return bad(),
+            };
+            let early = match *v {
+                "early" => true,
+                "alive" => false,
+                _ => return bad(),
+            };
+            LineRes::SysArbGone(aligned, early)
+        }
         (10, ["syslive", r]) => {
             match parse_nat(r) {
                 Some(r) if (1..=200).contains(&r) => LineRes::SysLive(r),
@@ -2777,6 +2864,13 @@ fn run_case(lines: &[String]) -> CaseOut {
                 out.lines.push((line.clone(), o.verdict));
                 out.t3.extend(o.t3);
             }
+            LineRes::SysArbGone(a, e) => match exec_sysarbgone(a, e) {
+                Ok(v) => out.lines.push((line.clone(), v)),
+                Err(msg) => {
+                    out.t3.push(("C10".into(), msg));
+                    out.lines.push((line.clone(), "sysarbgone=0".into()));
+                }
+            },
             LineRes::SysLive(r) => match exec_syslive(r) {
                 Ok(v) => out.lines.push((line.clone(), v)),
                 Err(e) => {
@@ -3543,7 +3637,7 @@ fn directed_c10(w: &mut dyn Write, rng: &mut Rng, n: &mut usize, thorough: bool)
         for l in lines {
             writeln!(w, "{l}").unwrap();
         }
-        if !lines.last().map(|l| l == "ident" || l.starts_with("sysids") || l.starts_with("syslive")).unwrap_or(false) {
+        if !lines.last().map(|l| l == "ident" || l.starts_with("sysids") || l.starts_with("syslive") || l.starts_with("sysarbgone")).unwrap_or(false) {
             writeln!(w, "go j={}", rng.next() % 1_000_000).unwrap();
         }
     };
@@ -3563,6 +3657,9 @@ fn directed_c10(w: &mut dyn Write, rng: &mut Rng, n: &mut usize, thorough: bool)
             }
         }
     }
+    // (000000000) `System::stop()` stops the System's own arbiter too (seen with the runner driven by `block_on`),
+    // also when a worker arbiter's number equals the System's id
+    case(w, &[s("sysarbgone aligned early"), s("sysarbgone aligned alive"), s("sysarbgone plain early"), s("sysarbgone plain alive")], rng);
     // (0000000) arbiters created AFTER `System::stop()` was handled (the runner inside `block_on`): the stop
     // broadcast was over before they existed, nobody has stopped them — they accept and run commands;
     // a System created after another one's `run()` returned does not get the id of a System still alive
@@ -3926,6 +4023,7 @@ fn gen_c10(a: &Args, w: &mut dyn Write) {
     writeln!(w, "case bad2 c10\narb\nspawn 0 own fn\nident\narb early\nstop sys-pre 1").unwrap();
     writeln!(w, "case bad3 c10\nhost 0 kept\nhost 4 kept\nhost 1 gone\nhost 2 kept\nhost 1 dropped\nsysarb\nsysarb\narb\narb\narb\nident\nspawn 1 own gate\nspawn 1 own fn\nwait t1\nwait t0\nopen t1\nopen t0\nopen t0\nwait t1\nspawnn 1 own fn 1\nspawnn 1 own fn 301\nspawnn 1 own gate 5\nspawnn 1 h1 fn 3\nspawnn 0 own fut 300\nspawnn 0 own fut 100\nstop 0 own\nstop 1 own\ngo j=9\nstop 2 h2\ngo j=9").unwrap();
     writeln!(w, "case bad4 c10\narb\nhost 1 kept\nspawn 0 own fn\nsysarb\nstop 0 own\ngo j=1").unwrap();
+    writeln!(w, "case bad14 c10\nsysarbgone\nsysarbgone aligned\nsysarbgone early aligned\nsysarbgone plain late\nsysarbgone plain alive").unwrap();
     writeln!(w, "case bad13 c10\nsyslive 0\nsyslive 201\nsyslive x\nrunner stoped\nrunner stopped\nsysarb\narb\nspawn 0 own fn\nwait t0\nstop 0 own\ngo j=12").unwrap();
     writeln!(w, "case bad11 c10\ndropsys\nrunner idle\nrunner block\nrunner plain\nhost 1 kept\nsysarb\ndropsys\narb\nident\nlate 0 sys\nspawn 0 own fn\ndropsys\ndropsys\nwait t0\nstop 0 own\ngo j=10").unwrap();
     writeln!(w, "case bad12 c10\narb\nrunner block\ndropsys\nstop 0 own\ngo j=11").unwrap();
